@@ -888,3 +888,87 @@ harness! {
         cov!(s, ll == 1 && rl == 2 && ref_str_cmp(&la[0], &ra[0]) == Greater, "SPEC.cover.slice_str_shorter_with_larger_first");
     }
 }
+
+// ---------------------------------------------------------------------------
+// LONG slices (loop unrolling / block-wise rewrites only show beyond a block): lengths up to 17
+
+fn ref_eq_u8(a: &[u8], b: &[u8]) -> bool {
+    if a.len() != b.len() {
+        return false;
+    }
+    let mut i = 0;
+    let mut eq = true;
+    while i < a.len() {
+        if a[i] != b[i] {
+            eq = false;
+        }
+        i += 1;
+    }
+    eq
+}
+fn ref_cmp_u8(a: &[u8], b: &[u8]) -> core::cmp::Ordering {
+    let mut i = 0;
+    while i < a.len() && i < b.len() {
+        if a[i] != b[i] {
+            return if a[i] < b[i] { core::cmp::Ordering::Less } else { core::cmp::Ordering::Greater };
+        }
+        i += 1;
+    }
+    if a.len() == b.len() { core::cmp::Ordering::Equal } else if a.len() < b.len() { core::cmp::Ordering::Less } else { core::cmp::Ordering::Greater }
+}
+
+harness! {
+    /// kind=bounded tier=quick bound="byte slices and strs of length <= 17 (all byte values; strs ASCII), both lengths symbolic: eq_bytes / eq_slice_u8 / cmp_bytes / eq_str / cmp_str and const_eq!/const_cmp! on them against an element-wise reference"
+    #[kani::unwind(20)]
+    fn c16_eq_cmp_long_byte_slices(s) {
+        let a: [u8; 17] = s.bytes();
+        let b: [u8; 17] = s.bytes();
+        let la = s.upto(17);
+        let lb = s.upto(17);
+        let (x, y) = (&a[..la], &b[..lb]);
+        let e = ref_eq_u8(x, y);
+        let o = ref_cmp_u8(x, y);
+        chk!(s, konst::slice::eq_bytes(x, y) == e, "C16.eq_bytes.long.eq_std");
+        chk!(s, konst::slice::cmp::eq_slice_u8(x, y) == e, "C16.eq_slice.long.eq_std");
+        chk!(s, konst::slice::cmp_bytes(x, y) == o, "C16.cmp_bytes.long.eq_ord");
+        chk!(s, konst::const_eq!(x, y) == e, "C16.const_eq.long_slice");
+        chk!(s, (o == core::cmp::Ordering::Equal) == e, "C16.cmp_equal_iff_eq.long");
+        cov!(s, la == 17 && lb == 17 && !e && a[7] != b[7] && a[16] == b[16], "C16.cover.long_slices_differ_at_index_7_only_region");
+    }
+}
+
+harness! {
+    /// kind=bounded tier=quick bound="u16 slices of length <= 12, both lengths symbolic: eq_slice_u16 / cmp_slice_u16 against an element-wise reference"
+    #[kani::unwind(15)]
+    fn c16_eq_cmp_long_u16_slices(s) {
+        let mut a = [0u16; 12];
+        let mut b = [0u16; 12];
+        let mut i = 0;
+        while i < 12 {
+            a[i] = s.u16();
+            b[i] = s.u16();
+            i += 1;
+        }
+        let la = s.upto(12);
+        let lb = s.upto(12);
+        let (x, y) = (&a[..la], &b[..lb]);
+        let mut eq = la == lb;
+        let mut ord = core::cmp::Ordering::Equal;
+        let mut decided = false;
+        let mut j = 0;
+        while j < 12 {
+            if j < la && j < lb && !decided && x[j] != y[j] {
+                ord = if x[j] < y[j] { core::cmp::Ordering::Less } else { core::cmp::Ordering::Greater };
+                decided = true;
+                eq = false;
+            }
+            j += 1;
+        }
+        if !decided {
+            ord = if la == lb { core::cmp::Ordering::Equal } else if la < lb { core::cmp::Ordering::Less } else { core::cmp::Ordering::Greater };
+        }
+        chk!(s, konst::slice::cmp::eq_slice_u16(x, y) == eq, "C16.eq_slice.long_u16.eq_std");
+        chk!(s, konst::slice::cmp::cmp_slice_u16(x, y) == ord, "C16.cmp_slice.long_u16.eq_ord");
+        cov!(s, la == 12 && lb == 12 && x[7] != y[7] && decided, "C16.cover.long_u16_slices_differ");
+    }
+}
